@@ -1,5 +1,5 @@
 (* Extraction of the life-cycle model and the log checker (trusted base: Extraction + ExtrOcamlBasic + ExtrOcamlNatInt for
    thread / error identities and the small counters). *)
 From Coq Require Import Extraction ExtrOcamlBasic ExtrOcamlNatInt.
-From LifeC Require Import Lifecycle LifeObs.
-Extraction "lifemodel.ml" init step quiescent legal complete clean.
+From LifeC Require Import Lifecycle LifeObs UdpSessions.
+Extraction "lifemodel.ml" init step quiescent legal complete clean uinit ustep.
